@@ -494,6 +494,9 @@ package lang
 //@   at call UnmarshalData#1 assert arg1 == dt
 //@   at call (lang/stdio.Io).Write#1 assert arg0 == b
 //@   ensures imp(result == TestPassed, errǂ1 == nil && errǂ2 == nil)
+// ... and exactly then: every map shape an unmarshaller can produce is a map (yaml yields map[any]any for
+// non-string keys)
+//@   ensures (result == TestPassed) == (errǂ1 == nil && errǂ2 == nil && (typeis(v, map[string]string) || typeis(v, map[string]any) || typeis(v, map[any]string) || typeis(v, map[any]any)))
 //@ func testIsGreaterThanOrEqualTo [C31]
 //@   check none
 //@   modifies nothing
